@@ -182,7 +182,7 @@ def run(ctx):
     eng = Engine(db, prog, H)
     eng.run(blast)
     rep.count_states(eng.states, eng.transitions)
-    if H.reads < 2 or H.puts < 3 or (H.returns == 0 and not H.bad):
+    if not H.bad and (H.reads < 2 or H.puts < 3 or H.returns == 0):
         raise AnalysisBroken('blast(): expected reads/puts/returns not found (%d/%d/%d)' % (H.reads, H.puts, H.returns))
     insts = ['end-of-data-only-at-the-end', 'end-of-data-exactly-once-at-the-end', 'decoded-lines-equal-input-lines',
              'wire-stream-safe:bare-LF-on-the-wire', 'wire-stream-safe:un-stuffed-dot-at-the-start-of-a-wire-line',
